@@ -33,7 +33,7 @@ RULE = ("chains of 1..5 templates; every level draws, per member name of a share
         "attribute values that are numbers or None/''/False/0, bodies and member contents made of literal tags [tN] (N unique per chain), "
         "calls with content (<%call>/<%self:..> to a def writing caller.body() once) holding tags, member calls and anonymous blocks, calls "
         "self/next/parent/local.X(), X.body(pos, kw), ${X.attr.a}, anonymous blocks; inherit written as a literal, "
-        "as one of three expression forms, or as an expression evaluating to None; 5% of the references are "
+        "as one of four expression forms (one reads the target from self.attr while the chain is being built), or as an expression evaluating to None; 5% of the references are "
         "deliberately invalid (next at T0, parent at the base, missing member, recursion); put_string lookups, "
         "and file-backed lookups (with and without module_directory) in the thorough tier. A case is non-trivial "
         "when the chain has >= 2 levels and some member is declared at >= 2 levels or a named block is nested; "
@@ -177,13 +177,20 @@ def level_source(case, i):
         elif form == 1:
             w.w("<%%! tv%d = '%s' %%>%s" % (i, tgt, hnl))
             w.w('<%%inherit file="${tv%d}"/>%s' % (i, hnl))
-        else:
+        elif form == 2:
             w.w('<%%inherit file="${context.get(\'nosuchkey\', \'%s\')}"/>%s' % (tgt, hnl))
+        else:
+            # the target is a module attribute read through self.attr while the chain is still being built
+            w.w("<%%! tv%d = '%s' %%>%s" % (i, tgt, hnl))
+            w.w('<%%inherit file="${context[\'self\'].attr.tv%d}"/>%s' % (i, hnl))
     elif inh == "Z":
         if lv.get("form", 0) == 0:
             w.w('<%%inherit file="${None}"/>%s' % hnl)
-        else:
+        elif lv.get("form", 0) == 1:
             w.w('<%%inherit file="${context.get(\'nosuchkey\')}"/>%s' % hnl)
+        else:
+            w.w("<%%! tz%d = None %%>%s" % (i, hnl))
+            w.w('<%%inherit file="${context[\'self\'].attr.tz%d}"/>%s' % (i, hnl))
     if lv["sig"]:
         w.w('<%%page args="%s"/>%s' % (", ".join(p if d is None else "%s=%d" % (p, d) for p, d in lv["sig"]), hnl))
     for a, v in lv["attrs"]:
@@ -621,10 +628,10 @@ class Gen:
         for i in range(nlev):
             last = i == nlev - 1
             lv = {"inh": ("N" if rng.random() < 0.8 else "Z") if last else rng.choice(["S", "S", "D"]),
-                  "form": rng.randint(0, 2), "hnl": rng.random() < 0.5,
+                  "form": rng.randint(0, 3), "hnl": rng.random() < 0.5,
                   "sig": [], "attrs": [], "nodes": []}
             if lv["inh"] == "Z":
-                lv["form"] = rng.randint(0, 1)
+                lv["form"] = rng.randint(0, 2)
             if rng.random() < 0.35:
                 for p in PARAMS[:rng.randint(1, 2)]:
                     lv["sig"].append([p, None if rng.random() < 0.25 else rng.randint(1, 9)])
@@ -894,6 +901,10 @@ class Gen:
                                 "nl": rng.random() < 0.5})
             return out
         nodes = go(0, False, [rng.randint(3, 14)])
+        if mode != "clean" and rng.random() < 0.15:
+            # a def holding a named block, replaced by a later def of the same name (F-C06-3, repaired)
+            nodes.insert(rng.randint(0, len(nodes)), {"k": "d", "n": "dz", "kids": [{"k": "b", "n": "mz", "kids": [self.t()], "nl": True}]})
+            nodes.append({"k": "d", "n": "dz", "kids": [self.t()]})
         return nodes
 
 
@@ -1420,7 +1431,7 @@ WITNESSES = [
     {"levels": [{"inh": "N", "sig": [], "attrs": [], "nodes": [{"k": "b", "n": None, "kids": [{"k": "t", "v": 1}]},
                                                                {"k": "b", "n": None, "kids": [{"k": "t", "v": 2}]}]}],
      "data": []},
-    # a named block inside a def that a later def of the same name replaces
+    # regression corpus (F-C06-3, repaired in /repo 14dadc4): a named block inside a def that a later def of the same name replaces
     {"levels": [{"inh": "N", "sig": [], "attrs": [], "nodes": [
         {"k": "d", "n": "ma", "kids": [{"k": "b", "n": "mb", "kids": [{"k": "t", "v": 1}]}]},
         {"k": "d", "n": "ma", "kids": [{"k": "t", "v": 2}]}]}],
